@@ -20,9 +20,9 @@ def materialise(scr):
 
 
 GENS = [
-    G("c02a", ["Enroll", "Remove", "Reinit", "ConnectRand", "ConnectHonest", "ConnectNear", "ConnectMixed", "ConnectOther"], 10,
+    G("c02a", ["Enroll", "Remove", "Reinit", "ConnectRand", "ConnectHonest", "ConnectNear", "ConnectMixed", "ConnectOther", "ConnectReplay"], 10,
       dict(quick=40, thorough=800), ["C02"], nidl=True),
-    G("c02b", ["Enroll", "Remove", "ConnectHonest", "ConnectNear", "ConnectMixed", "ConnectOther", "Dial"], 10,
+    G("c02b", ["Enroll", "Remove", "ConnectHonest", "ConnectNear", "ConnectMixed", "ConnectOther", "Dial", "ConnectReplay", "ConnectReplay"], 10,
       dict(quick=25, thorough=500), ["C02"], nidl=False, sw=True),
     G("c02c", ["Enroll", "Remove", "ConnectNear", "ConnectOther"], 8,
       dict(quick=10, thorough=200), ["C02"], nidl=False, base=False),
